@@ -61,6 +61,10 @@ HOSTILE = [lambda: _BadStrObj(), lambda: {1: "int key", (2, 3): "tuple key"}, la
            lambda: {"nested": [_BadStrObj()]}, lambda: -(2 ** 64), lambda: lambda z: z]
 
 
+import copy as _copy
+X_PRISTINE = None
+
+
 class _Abort(BaseException):
     """Unwinds a context's open blocks when the program is over."""
 
@@ -305,6 +309,11 @@ class Env:
         raise HarnessError("unknown outcome %r" % (o,))
 
 
+def _init_pristine():
+    global X_PRISTINE
+    X_PRISTINE = _copy.deepcopy(VAL)
+
+
 def _same(a, b):
     """Equality that distinguishes types and the sign of zero (True != 1, -0.0 != 0.0)."""
     if type(a) is not type(b):
@@ -487,6 +496,13 @@ class Runner:
                 env.acts[op["a"] - 1].log(message_type=op["ty"], mf=VAL["mf"], **env.collide())
             elif name == "AddSuccess":
                 env.acts[op["a"] - 1].add_success_fields(**{op["f"]: VAL[op["f"]]})
+            elif name == "RawWrite":
+                import uuid, time, copy
+                d = {"task_uuid": str(uuid.uuid4()), "task_level": [1], "timestamp": time.time(), "message_type": "m", "mf": copy.deepcopy(VAL["mf"])}
+                before = copy.deepcopy(d)
+                Logger().write(d)
+                if not _same(d, before):
+                    v = "mutated"
             elif name == "WriteTraceback":
                 try:
                     raise (RuntimeError("unexpected") if op.get("o", "exc") == "exc" else env.make_exc(op["o"]))
@@ -628,6 +644,9 @@ def forest_of(env):
     return [roots[u] for u in order if u in roots], filewhy, ""
 
 
+_init_pristine()
+
+
 def execute_env(prog):
     """Run a program and return the Env (for callers that need the delivered message dicts)."""
     return execute(prog, want_env=True)
@@ -665,6 +684,8 @@ def execute(prog, want_env=False):
     for r in env.runners.values():
         if r.thread is not None:
             r.thread.join(timeout=10)
+    if not _same(VAL, X_PRISTINE):
+        env.error = env.error or "HARNESS: shared witness values were modified by the library (caller data mutated)"
     if want_env:
         return env
     parsed, filewhy, perr = forest_of(env)
